@@ -54,6 +54,9 @@ func (c qcfg) name() string {
 	if c.z {
 		s += fmt.Sprintf(" deflate=L%d B=%s%d after=%v", c.level, c.big.class, c.big.n, c.after)
 	}
+	if !c.z && c.after {
+		s += " after=frame"
+	}
 	return s
 }
 
@@ -249,6 +252,29 @@ func queuedBody(c qcfg) func() {
 				w.failf("write-stuck|the call writing %s never returned", m.id)
 			}
 		}
+		// WriteFrame callers: judged frame by frame. A hand-made fragmented sequence ('f') is not a
+		// unit nbio protects: next to another data writer (or cut by the queue limit, after which
+		// the caller stops) the wire need not be a legal message sequence; then only the frame-level
+		// rules and the wholeness of every WriteMessage call are judged
+		exposed := false
+		if strings.Contains(strings.Join(c.writers, ""), "f") {
+			dataWriters := 0
+			for _, s := range c.writers {
+				if strings.ContainsAny(s, "mstgf") {
+					dataWriters++
+				}
+			}
+			exposed = c.qmax > 0 || dataWriters > 1 || c.echo
+		}
+		mw := w // the world the message-level judge reports to
+		if exposed {
+			mw = &world{z: c.z}
+		}
+		frameCheck := func(mustAll bool, when string) {
+			if hasFrameCallers(msgs) {
+				judgeFrames(w, fc.writes, msgs, mustAll, c.name()+" "+when)
+			}
+		}
 		// a message refused with "queue full" must not leave a part of itself on the wire
 		unowned := 0
 		queueFullCheck := func() {
@@ -256,7 +282,7 @@ func queuedBody(c qcfg) func() {
 				unowned = attributeWrites(fc, msgs, c.f)
 			}
 			for _, m := range msgs {
-				if m.err != nil && errors.Is(m.err, websocket.ErrMessageSendQuqueIsFull) {
+				if m.kind != 'F' && m.err != nil && errors.Is(m.err, websocket.ErrMessageSendQuqueIsFull) {
 					cnt := 0
 					for _, wr := range fc.writes {
 						if ownsWrite(m, wr) {
@@ -275,6 +301,7 @@ func queuedBody(c qcfg) func() {
 				}
 			}
 		}
+		frameCheck(quiet, "at quiescence")
 		queueFullCheck()
 		if quiet {
 			if fc.closed || len(l.closes) > 0 {
@@ -293,25 +320,29 @@ func queuedBody(c qcfg) func() {
 			// a queue-full refusal in the middle of a message is named by the dedicated check above
 			// (the first failure is the verdict); in every case the wire must be whole and complete:
 			// a refused message is simply absent
-			if full {
+			if full && !exposed {
 				for _, m := range msgs {
 					if m.ret != 0 && m.err == nil && countWhole(fc, m) == 0 {
 						w.failf("wire-lost|message %s was accepted (nil error) while another was refused with queue-full, the connection is open, but %s is not on the wire; wire=%s", m.id, m.id, wireOf(fc))
 					}
 				}
 			}
-			judgeWire(w, fc.wire(), msgs, true, false, c.name()+" at quiescence, connection open")
+			judgeWire(mw, fc.wire(), msgs, true, false, c.name()+" at quiescence, connection open")
 		}
 
 		// ---- phase 1b: everything has drained; the next message must find a usable connection
 		followUp := 0
 		if c.after && quiet {
-			m := zAfterMsg(c)
+			var m *outMsg
+			if c.z {
+				m = zAfterMsg(c)
+			} else { // one more single-frame message through the frame API
+				m = &outMsg{id: "after", writer: 99, kind: 'F', op: wsgen.OpBinary, payload: payloadFor(9, c.f)}
+			}
 			msgs = append(msgs, m)
-			m.call = w.tick()
-			m.err = wsc.WriteMessage(websocket.BinaryMessage, m.payload)
-			m.ret = w.tick()
+			writeOne(w, wsc, m, c.f)
 			vsched.WaitIdle()
+			frameCheck(true, "after the follow-up frame")
 			queueFullCheck()
 			switch {
 			case m.err == nil:
@@ -325,7 +356,7 @@ func queuedBody(c qcfg) func() {
 			if fc.closed || len(l.closes) > 0 {
 				w.failf("closed-unprovoked|nobody closed the connection, yet it is closed after the follow-up message (conn closed=%v, OnClose calls=%d)", fc.closed, len(l.closes))
 			}
-			judgeWire(w, fc.wire(), msgs, true, false, c.name()+" after the follow-up message, connection open")
+			judgeWire(mw, fc.wire(), msgs, true, false, c.name()+" after the follow-up message, connection open")
 		}
 
 		// ---- phase 2: end the connection if the scenario has not done so, let the delay elapse
@@ -341,7 +372,8 @@ func queuedBody(c qcfg) func() {
 		if c.z {
 			unowned = attributeWrites(fc, msgs, c.f)
 		}
-		res := judgeWire(w, fc.wire(), msgs, false, true, c.name()+" at the end")
+		frameCheck(false, "at the end")
+		res := judgeWire(mw, fc.wire(), msgs, false, true, c.name()+" at the end")
 		if c.direct && res.v != nil {
 			// direct mode: nil means every frame was handed to the conn before the call returned
 			for _, m := range msgs {
@@ -383,6 +415,24 @@ func queuedBody(c qcfg) func() {
 		cnt := map[string]int{"messages_delivered": len(l.msgs), "late_write_calls_on_closed_conn": fc.lateWrites}
 		if res.v != nil {
 			cnt["messages_on_wire"] = len(res.v.Events)
+		}
+		for _, m := range msgs {
+			for _, r := range m.frames {
+				switch {
+				case r.err == nil:
+					cnt["writeframe_calls_accepted"]++
+				case errors.Is(r.err, websocket.ErrMessageSendQuqueIsFull):
+					cnt["writeframe_calls_refused_queue_full"]++
+				default:
+					cnt["writeframe_calls_failed_other"]++
+				}
+			}
+			if m.id == "after" && m.kind == 'F' && m.err == nil {
+				cnt["writeframe_followup_accepted"]++
+			}
+		}
+		if exposed {
+			cnt["frame_level_only_executions"] = 1
 		}
 		if c.z {
 			cnt["z_followup_accepted"] = followUp
